@@ -148,6 +148,43 @@ theorem loop_list' (R : τ → σ) (g : Nat → Nat → τ → Ctl τ ρ) (l : L
     loop body 1 n i0 s = mapS R (iterL g a l t) := by
   subst hs hn hi; exact loop_list R body g l a t hb
 
+/-- the same for states satisfying an invariant that the steps preserve -/
+theorem loop_list_inv (R : τ → σ) (Inv : τ → Prop) (body : Int → σ → Ctl σ ρ) (g : Nat → Nat → τ → Ctl τ ρ) :
+    ∀ (l : List Nat) (a : Nat) (t : τ), Inv t →
+      (∀ j (hj : j < l.length) t, Inv t → body ((a + j : Nat) : Int) (R t) = mapS R (g (a + j) l[j] t)) →
+      (∀ j (hj : j < l.length) t t', Inv t → g (a + j) l[j] t = .next t' → Inv t') →
+      loop body 1 l.length (a : Int) (R t) = mapS R (iterL g a l t) := by
+  intro l
+  induction l with
+  | nil => intro a t _ _ _; rfl
+  | cons x xs ih =>
+    intro a t ht hb hinv
+    have h0 := hb 0 (by simp) t ht
+    simp only [Nat.add_zero, List.getElem_cons_zero] at h0
+    rw [List.length_cons, loop_succ, h0]
+    simp only [iterL]
+    cases hg : g a x t with
+    | next t' =>
+      simp only [mapS_next]
+      have e : (a : Int) + 1 = ((a + 1 : Nat) : Int) := by omega
+      rw [e]
+      have ht' : Inv t' := by
+        have := hinv 0 (by simp) t t' ht
+        simp only [Nat.add_zero, List.getElem_cons_zero] at this
+        exact this hg
+      refine ih (a + 1) t' ht' (fun j hj t ht => ?_) (fun j hj t t' ht hs => ?_)
+      · have := hb (j + 1) (by simp; omega) t ht
+        simp only [List.getElem_cons_succ] at this
+        rw [show a + 1 + j = a + (j + 1) by omega]
+        exact this
+      · have := hinv (j + 1) (by simp; omega) t t' ht
+        simp only [List.getElem_cons_succ] at this
+        rw [show a + 1 + j = a + (j + 1) by omega] at hs
+        exact this hs
+    | brk t' => rfl
+    | ret r => rfl
+    | panic f => rfl
+
 /-- `for i, x := range l` -/
 theorem forRange_list (R : τ → σ) (body : Int → Int → σ → Ctl σ ρ) (g : Nat → Nat → τ → Ctl τ ρ) :
     ∀ (l : List Nat) (a : Nat) (t : τ),
@@ -652,6 +689,161 @@ theorem iterL_mulOuter (F : GF.GF) (b : List Nat) (hb : b ≠ []) : ∀ (a pre c
           have hrestl := mulRaw_length F b hb as rest hrest
           rw [zipWith_addInto row cur (0 :: rest) (by simp [hrestl]; simp at hlen; omega), hacc]
           simp
+
+/-! ### the generator cache of `ReedSolomonEncoder.buildGenerator` -/
+
+/-- `for i := a; i < a + n; i++` whose step depends on the index only -/
+theorem loop_range (R : τ → σ) (g : Nat → τ → Ctl τ ρ) (a k : Nat) (t : τ)
+    {body : Int → σ → Ctl σ ρ} {n : Nat} {i0 : Int} {s : σ}
+    (hs : s = R t) (hn : n = k) (hi : i0 = (a : Int))
+    (hb : ∀ i, a ≤ i → i < a + k → ∀ t, body (i : Int) (R t) = mapS R (g i t)) :
+    loop body 1 n i0 s = mapS R (iterL (fun _ d t => g d t) a (List.range' a k) t) := by
+  refine loop_list' R (fun _ d t => g d t) (List.range' a k) a t hs (by rw [hn, List.length_range']) hi (fun j hj t => ?_)
+  rw [List.length_range'] at hj
+  rw [List.getElem_range', Nat.one_mul]
+  exact hb (a + j) (by omega) (by omega) t
+
+theorem mulRaw_error {F : GF.GF} {b : List Nat} : ∀ (a : List Nat) (e : Fault), mulRaw F a b = .error e → IsPanic e := by
+  intro a
+  induction a with
+  | nil => intro e h; simp only [mulRaw] at h; cases h
+  | cons a0 as ih =>
+    intro e h
+    simp only [mulRaw, bind, Except.bind] at h
+    cases hrow : b.mapM (fun bj => F.mul a0 bj) with
+    | error e1 => simp only [hrow] at h; cases h; exact mapM_error (fun x e h => mul_error h) _ _ hrow
+    | ok row =>
+      simp only [hrow] at h
+      cases hrest : mulRaw F as b with
+      | error e2 => simp only [hrest] at h; cases h; exact ih _ hrest
+      | ok rest => simp only [hrest] at h; cases h
+
+/-- `for i := a; i < a + n; i++`, step depending on the index only, states under an invariant -/
+theorem loop_range_inv (R : τ → σ) (Inv : τ → Prop) (g : Nat → τ → Ctl τ ρ) (a k : Nat) (t : τ)
+    {body : Int → σ → Ctl σ ρ} {n : Nat} {i0 : Int} {s : σ}
+    (hs : s = R t) (hn : n = k) (hi : i0 = (a : Int)) (ht : Inv t)
+    (hinv : ∀ i t t', Inv t → g i t = .next t' → Inv t')
+    (hb : ∀ i, a ≤ i → i < a + k → ∀ t, Inv t → body (i : Int) (R t) = mapS R (g i t)) :
+    loop body 1 n i0 s = mapS R (iterL (fun _ d t => g d t) a (List.range' a k) t) := by
+  subst hs hi
+  have hl : n = (List.range' a k).length := by rw [hn, List.length_range']
+  rw [hl]
+  refine loop_list_inv R Inv body (fun _ d t => g d t) (List.range' a k) a t ht (fun j hj t ht => ?_) (fun j hj t t' ht hs => ?_)
+  · rw [List.length_range'] at hj
+    rw [List.getElem_range', Nat.one_mul]
+    exact hb (a + j) (by omega) (by omega) t ht
+  · exact hinv _ t t' ht hs
+
+theorem multiply_error {F : GF.GF} {p q : Poly} {e : Fault} (hp : p ≠ []) (hq : q ≠ []) (h : multiply F p q = .error e) :
+    IsPanic e := by
+  unfold multiply at h
+  split at h
+  · cases h
+  · simp only [bind, Except.bind] at h
+    cases hm : mulRaw F p q with
+    | error e1 =>
+      simp only [hm] at h; cases h
+      exact mulRaw_error _ _ hm
+    | ok m =>
+      simp only [hm] at h
+      have hl := mulRaw_length F q hq p m hm
+      have hpl : 0 < p.length := List.length_pos_iff.mpr hp
+      have hql : 0 < q.length := List.length_pos_iff.mpr hq
+      unfold mkPoly at h
+      cases m with
+      | nil => simp at hl; omega
+      | cons x xs => cases h
+
+/-- one stage of the generator recursion: `g_d = g_{d-1} · (x + α^(d-1+base))` -/
+def genStage (F : GF.GF) (d : Nat) (last : Poly) : Res Poly := do
+  let e ← F.expAt (d - 1 + F.base)
+  let f ← mkPoly [1, e]
+  multiply F last f
+
+theorem buildGenerator_succ (F : GF.GF) (d : Nat) :
+    buildGenerator F (d + 1) = buildGenerator F d >>= fun g => genStage F (d + 1) g := by
+  simp only [buildGenerator, genStage, Nat.add_sub_cancel]
+
+theorem buildGenerator_ne (F : GF.GF) : ∀ (d : Nat) (g : Poly), buildGenerator F d = .ok g → g ≠ [] := by
+  intro d
+  cases d with
+  | zero => intro g h; simp only [buildGenerator] at h; cases h; simp
+  | succ d =>
+    intro g h
+    rw [buildGenerator_succ] at h
+    simp only [bind, Except.bind] at h
+    cases hg : buildGenerator F d with
+    | error e => simp only [hg] at h; cases h
+    | ok g0 =>
+      simp only [hg, genStage, bind, Except.bind] at h
+      cases he : F.expAt (d + 1 - 1 + F.base) with
+      | error e => simp only [he] at h; cases h
+      | ok ev =>
+        simp only [he] at h
+        cases hf : mkPoly [1, ev] with
+        | error e => simp only [hf] at h; cases h
+        | ok f => simp only [hf] at h; exact multiply_ne h
+
+theorem buildGenerator_error_mono (F : GF.GF) {d : Nat} {e : Fault} (h : buildGenerator F d = .error e) :
+    ∀ k, buildGenerator F (d + k) = .error e := by
+  intro k
+  induction k with
+  | zero => exact h
+  | succ k ih => rw [← Nat.add_assoc, buildGenerator_succ, ih]; rfl
+
+/-- what the encoder's cache holds: generators 0, 1, … (at least g_0) -/
+def CacheOK (F : GF.GF) (cache : List Poly) : Prop :=
+  cache ≠ [] ∧ ∀ i (h : i < cache.length), buildGenerator F i = .ok cache[i]
+
+/-- one round of the cache-filling loop (state: cache, last generator) -/
+def cacheStep (F : GF.GF) (d : Nat) (st : List Poly × Poly) : Ctl (List Poly × Poly) ρ :=
+  match genStage F d st.2 with
+  | .ok g => .next (st.1 ++ [g], g)
+  | .error e => .panic e
+
+theorem cache_run (F : GF.GF) : ∀ (n s : Nat) (cache : List Poly) (last : Poly), 1 ≤ s → cache.length = s →
+    (∀ i (h : i < cache.length), buildGenerator F i = .ok cache[i]) → buildGenerator F (s - 1) = .ok last → 1 ≤ n →
+    match buildGenerator F (s + n - 1) with
+    | .ok g => ∃ cache', iterL (ρ := ρ) (fun _ d t => cacheStep F d t) s (List.range' s n) (cache, last) = .next (cache', g) ∧
+        cache'.length = s + n ∧ (∀ i (h : i < cache'.length), buildGenerator F i = .ok cache'[i])
+    | .error e => iterL (ρ := ρ) (fun _ d t => cacheStep F d t) s (List.range' s n) (cache, last) = .panic e := by
+  intro n
+  induction n with
+  | zero => intro s cache last _ _ _ _ h; omega
+  | succ n ih =>
+    intro s cache last hs hlen hc hlast _
+    obtain ⟨s', rfl⟩ : ∃ k, s = k + 1 := ⟨s - 1, by omega⟩
+    have hstage : buildGenerator F (s' + 1) = genStage F (s' + 1) last := by
+      rw [buildGenerator_succ]; simp only [Nat.add_sub_cancel] at hlast; rw [hlast]; rfl
+    simp only [List.range'_succ, iterL, cacheStep]
+    cases hg : genStage F (s' + 1) last with
+    | error e =>
+      have := buildGenerator_error_mono F (hstage.trans hg) n
+      rw [show s' + 1 + (n + 1) - 1 = s' + 1 + n by omega, this]
+    | ok g =>
+      simp only []
+      have hbg : buildGenerator F (s' + 1) = .ok g := hstage.trans hg
+      have hc' : ∀ i (h : i < (cache ++ [g]).length), buildGenerator F i = .ok (cache ++ [g])[i] := by
+        intro i hi
+        by_cases hlt : i < cache.length
+        · rw [List.getElem_append_left hlt]; exact hc i hlt
+        · have : i = s' + 1 := by simp at hi; omega
+          subst this
+          rw [List.getElem_append_right (by omega)]
+          simp [hlen, hbg]
+      by_cases hn : n = 0
+      · subst hn
+        simp only [List.range'_zero, iterL]
+        rw [show s' + 1 + (0 + 1) - 1 = s' + 1 by omega, hbg]
+        exact ⟨_, rfl, by simp [hlen], hc'⟩
+      · have := ih (s' + 1 + 1) (cache ++ [g]) g (by omega) (by simp [hlen]) hc' (by simpa using hbg) (by omega)
+        rw [show s' + 1 + 1 + n - 1 = s' + 1 + (n + 1) - 1 by omega] at this
+        cases hfin : buildGenerator F (s' + 1 + (n + 1) - 1) with
+        | error e => rw [hfin] at this; exact this
+        | ok gg =>
+          rw [hfin] at this
+          obtain ⟨cache', h1, h2, h3⟩ := this
+          exact ⟨cache', h1, by omega, h3⟩
 
 theorem while_map' (R : τ → σ) (f : τ → Ctl τ ρ) (t : τ) {body : σ → Ctl σ ρ} {s : σ} {n : Nat}
     (hs : s = R t) (hb : ∀ t, body (R t) = mapS R (f t)) :
